@@ -255,3 +255,87 @@ Proof.
   repeat (match type of H with context [if ?c then _ else _] => destruct c end);
     inversion H; cbn; lia.
 Qed.
+
+(* ---- the stream of a connection is self-delimiting ----------------------------------------------- *)
+(* a buffer that starts with a 4-byte size equal to the number of bytes that follow *)
+Definition well_framed (f : bytes) : Prop := exists sz r, parse_u 4 f = Some (sz, r) /\ sz = len r.
+
+Lemma parse_frame_well_framed f x : parse_frame f = Some x -> well_framed f.
+Proof.
+  unfold parse_frame. intros H. destruct (parse_u 4 f) as [[sz r]|] eqn:E; cbn [obind] in H; [|discriminate].
+  destruct (sz =? len r) eqn:Es; cbn [negb] in H; [|discriminate]. exists sz, r. split; auto. lia.
+Qed.
+
+Lemma well_framed_shape f : well_framed f -> exists h r, f = h ++ r /\ length h = 4%nat /\ unbe h = len r.
+Proof.
+  intros (sz & r & H & Hs). unfold parse_u, read_n in H.
+  destruct ((0 <=? 4) && (4 <=? len f)) eqn:Eb; cbn [obind] in H; [|discriminate].
+  inversion H; subst; clear H. exists (take 4 f), (drop 4 f). unfold take, drop.
+  split; [now rewrite firstn_skipn|]. split; auto.
+  rewrite firstn_length. unfold len in Eb. change (Z.to_nat 4) with 4%nat. lia.
+Qed.
+
+Lemma split_stream_cons f rest fuel : well_framed f ->
+  split_stream (S fuel) (f ++ rest) = (f :: fst (split_stream fuel rest), snd (split_stream fuel rest)).
+Proof.
+  intros W. destruct (well_framed_shape f W) as (h & r & -> & Lh & Hu).
+  assert (Hh : len h = 4) by (unfold len; lia).
+  cbn [split_stream]. rewrite <- app_assoc. unfold parse_u.
+  rewrite (read_n_app h (r ++ rest)) by lia. cbn [obind]. rewrite Hu.
+  rewrite len_app. pose proof (len_nonneg rest).
+  destruct (Z.ltb_spec (len r + len rest) (len r)) as [Hl|_]; [lia|].
+  rewrite take_app_exact, drop_app_exact.
+  replace (take 4 (h ++ r ++ rest)) with h by (symmetry; rewrite <- Hh; apply take_app_exact).
+  destruct (split_stream fuel rest) as [fs rs]. reflexivity.
+Qed.
+
+Lemma well_framed_length f : well_framed f -> (4 <= length f)%nat.
+Proof. intros W. destruct (well_framed_shape f W) as (h & r & -> & Lh & _). rewrite app_length. lia. Qed.
+
+Lemma split_stream_nil fuel : split_stream fuel [] = ([], []).
+Proof. destruct fuel; reflexivity. Qed.
+
+Lemma split_stream_concat ws : Forall well_framed ws -> forall fuel, (length ws <= fuel)%nat ->
+  split_stream fuel (concat ws) = (ws, []).
+Proof.
+  induction 1 as [|f ws W _ IH]; intros fuel Hf; cbn [concat].
+  - apply split_stream_nil.
+  - destruct fuel as [|fuel]; [cbn in Hf; lia|]. rewrite split_stream_cons by assumption.
+    rewrite IH by (cbn in Hf; lia). reflexivity.
+Qed.
+
+Lemma concat_length_ge ws : Forall well_framed ws -> (length ws <= length (concat ws))%nat.
+Proof.
+  induction 1 as [|f ws W _ IH]; cbn [concat length]; [lia|]. rewrite app_length.
+  pose proof (well_framed_length f W). lia.
+Qed.
+
+(* a strict prefix of a well-framed buffer is left unread *)
+Lemma split_stream_partial f p q fuel : well_framed f -> f = p ++ q -> q <> [] -> split_stream fuel p = ([], p).
+Proof.
+  intros W E Q. destruct fuel as [|fuel]; [reflexivity|]. cbn [split_stream].
+  destruct (well_framed_shape f W) as (h & r & E2 & Lh & Hu).
+  unfold parse_u, read_n. destruct ((0 <=? 4) && (4 <=? len p)) eqn:Eb; cbn [obind]; [|reflexivity].
+  assert (Lp : (4 <= length p)%nat) by (unfold len in Eb; lia).
+  assert (Eh : take 4 p = h).
+  { unfold take. change (Z.to_nat 4) with 4%nat.
+    assert (firstn 4 f = h) by (rewrite E2; apply firstn_app_exact; lia).
+    rewrite E in H. rewrite firstn_app in H. replace (4 - length p)%nat with 0%nat in H by lia.
+    cbn [firstn] in H. now rewrite app_nil_r in H. }
+  rewrite Eh, Hu.
+  assert (Lr : len (drop 4 p) < len r).
+  { unfold drop, len. change (Z.to_nat 4) with 4%nat. rewrite skipn_length.
+    assert (length f = length p + length q)%nat by (rewrite E; apply app_length).
+    assert (length f = 4 + length r)%nat by (rewrite E2, app_length; lia).
+    destruct q as [|x q]; [congruence|]. cbn [length] in H. lia. }
+  destruct (Z.ltb_spec (len (drop 4 p)) (len r)); [reflexivity|lia].
+Qed.
+
+Lemma split_stream_concat_partial ws f p q : Forall well_framed ws -> well_framed f -> f = p ++ q -> q <> [] ->
+  forall fuel, (length ws <= fuel)%nat -> split_stream fuel (concat ws ++ p) = (ws, p).
+Proof.
+  intros Hw W E Q. induction Hw as [|g ws Wg _ IH]; intros fuel Hf; cbn [concat app].
+  - apply (split_stream_partial f p q fuel W E Q).
+  - destruct fuel as [|fuel]; [cbn in Hf; lia|]. rewrite <- app_assoc, split_stream_cons by assumption.
+    rewrite IH by (cbn in Hf; lia). reflexivity.
+Qed.
